@@ -33,14 +33,20 @@ def stop_of(spec):
     return float(Fraction(str(start)) + n * Fraction(str(dt)))
 
 
-def make_bptk(spec, mode, env, siblings=False):
+def make_bptk(spec, mode, env, siblings=False, specs_by_scenario=False):
     import BPTK_Py
     start, dt, n = spec
-    m = scen.base_model(start, stop_of(spec), dt, name="c09")
+    if specs_by_scenario:
+        # the model object carries other run specs; the scenario's runspecs override them with the spec under test
+        m = scen.base_model(0.0, 2.0, (1.0 if dt != 1.0 else 0.5), name="c09")
+    else:
+        m = scen.base_model(start, stop_of(spec), dt, name="c09")
     b = BPTK_Py.bptk()
     b.register_scenario_manager({"sm": {"model": m}})
     k = scen.sym_const("k0") if mode == "sym" else float(env.get("k0", 1.5))
     sc = {"A": {"constants": {"k": k}}}
+    if specs_by_scenario:
+        sc["A"]["runspecs"] = {"starttime": start, "stoptime": stop_of(spec), "dt": dt}
     if siblings:
         # A sits between two siblings of the same manager (one registered before it, one after)
         sc = {"S0": {"constants": {"k": new_c(mode, env, "ks0")}}, "A": sc["A"], "S1": {}}
@@ -81,7 +87,10 @@ def channels(tier):
           "after-batch:session:steps", "after-batch:session:settings@1", "after-session:batch:df", "after-session:session:settings@last",
           "after-batch:batch:json", "rest-after-run:run-step-settings@1",
           # a session over three scenarios of the manager: settings addressed to the siblings must not show in A's steps
-          "session:siblings-settings", "rest:siblings-settings"]
+          "session:siblings-settings", "rest:siblings-settings",
+          # the scenario's own runspecs (not the model object's) define the grid: first run of each format, and twice in a row
+          "scenario-specs:batch:df", "scenario-specs:batch:dict", "scenario-specs:batch:json", "scenario-specs:batch:df-twice",
+          "scenario-specs:rest:run"]
     return ch
 
 
@@ -126,6 +135,22 @@ def run_channel(spec, channel, mode, env=None):
     nlab = n + 1
     changes = []
     prior = None
+    by_scen = channel.startswith("scenario-specs:")
+    if by_scen:
+        channel = channel[len("scenario-specs:"):]
+        if channel.startswith("batch"):
+            b, consts = make_bptk(spec, mode, env, specs_by_scenario=True)
+            fmt = channel.split(":")[1]
+            twice = fmt.endswith("-twice")
+            fmt = fmt.replace("-twice", "")
+            r = b.run_scenarios(scenarios=["A"], scenario_managers=["sm"], equations=scen.EQS, return_format=fmt)
+            if twice:
+                r = b.run_scenarios(scenarios=["A"], scenario_managers=["sm"], equations=scen.EQS, return_format=fmt)
+            if fmt == "df":
+                return scen.from_df(r, "sm", "A"), changes, consts
+            if fmt == "json":
+                r = scen.loads(r)
+            return scen.from_dict(r, "sm", "A"), changes, consts
     if channel.startswith("after-batch:"):
         prior, channel = "batch", channel[len("after-batch:"):]
     elif channel.startswith("after-session:"):
@@ -199,7 +224,7 @@ def run_channel(spec, channel, mode, env=None):
     holder = {}
 
     def fac():
-        b, consts = make_bptk(spec, mode, env, siblings=(channel == "rest:siblings-settings"))
+        b, consts = make_bptk(spec, mode, env, siblings=(channel == "rest:siblings-settings"), specs_by_scenario=by_scen)
         holder["consts"] = consts
         return b
     app = BptkServer(__name__, fac)
